@@ -245,12 +245,42 @@ def split(progs, lines):
     return out if i == len(lines) else None
 
 
+def image_dump(dump, image):
+    """the dump line with every section's bytes replaced by the bytes found in the JIT image at the section's offset"""
+    w = dump.split()
+    i = 0
+    while i < len(w):
+        if w[i] == "S" and i + 3 < len(w):
+            off, b = int(w[i + 1], 16), w[i + 3]
+            if b != "-":
+                n = len(b) // 2
+                w[i + 3] = image[2 * off:2 * (off + n)].ljust(2 * n, "f")   # bytes missing from the image can never decode correctly
+            i += 4
+        else:
+            i += 1
+    return " ".join(w)
+
+
 def monitor_lines(prog, answers):
     w = prog[0].split()
     ml = ["moninit %s %s" % (w[1], w[2])]
+    image, dumped = None, False
     for op, ans in zip(prog[1:], answers[1:]):
         if op == "dump":
-            ml.append("mon" + ans)        # "dump ..." -> "mondump ..."
+            if dumped:
+                continue                  # one verdict per program: the first dump
+            dumped = True
+            ml.append("mon" + (image_dump(ans, image) if image is not None else ans))        # "dump ..." -> "mondump ..."
+        elif op.startswith("jitadd"):
+            # JitRuntime::add = flatten + resolve + relocate_to_base(rx) + copy: the monitor judges the bytes at rx
+            a = ans.split()
+            if a[0] == "Ok" and len(a) >= 6:
+                image = "" if a[5] == "-" else a[5]
+                ml.append("mon Ok %s %s | relocate %s" % (a[1], a[2], a[3]))
+            else:
+                ml.append("mon InvalidState %s %s | relocate 0" % (a[1], a[2]))
+        elif op == "jitrelease":
+            continue
         else:
             ml.append("mon %s | %s" % (" ".join(ans.split()[:3]), op))
     return ml
